@@ -79,7 +79,7 @@ fn verif_native_c15_ntv2_bitflips() {
     assert!(bad.is_empty(), "C15.N.ntv2.bitflips: {} flips panic, first: {}", bad.len(), bad[0]);
 }
 
-//@n {"id":"C08.N.ntv2.deepest","props":["C08","C15"],"tier":"quick","bound":"the shipped two-level file 5458_with_subgrid.gsb (parent 5458, child 5556) and a 121x121 lattice over the parent's extent plus its half-cell margin (boundaries of the child included), margins 0 and 0.5","text":"within an NTv2 file the deepest sub-grid containing the point is used: strictly inside the child's extent (upper latitude / eastern longitude borders excluded, as NTv2 prescribes) the value is the child's interpolation, elsewhere inside the parent the parent's; outside parent + margin there is no value; the file's own geometry and node count agree with its header records"}
+//@n {"id":"C08.N.ntv2.deepest","props":["C08","C15"],"tier":"quick","bound":"the shipped two-level file 5458_with_subgrid.gsb (parent 5458, child 5556) and a 121x121 lattice over the parent's extent plus its half-cell margin (boundaries of the child included), margins 0 and 0.5; the same file with its two sub grid records swapped (61x61 lattice)","text":"within an NTv2 file the deepest sub-grid containing the point is used: strictly inside the child's extent (upper latitude / eastern longitude borders excluded, as NTv2 prescribes) the value is the child's interpolation, elsewhere inside the parent the parent's; outside parent + margin there is no value; the file's own geometry and node count agree with its header records"}
 #[test]
 fn verif_native_c08_ntv2_deepest() {
     let (_, buf) = files().into_iter().find(|(n, _)| *n == "5458_with_subgrid.gsb").unwrap();
@@ -122,6 +122,30 @@ fn verif_native_c08_ntv2_deepest() {
                 let exp = if in_child { child.at(&p, m) } else if parent.contains(&p, m) { parent.at(&p, m) } else { None };
                 if !eq(&got, &exp) {
                     fails.push(format!("at ({:.6}, {:.6}) margin {m}: got {:?}, expected {:?} (in child: {in_child})", lon.to_degrees(), lat.to_degrees(), got, exp));
+                }
+            }
+        }
+    }
+    // the NTv2 specification does not guarantee the order of sub grid records: the same file with the child stored
+    // BEFORE its parent must behave identically
+    let rec = |off: usize| 176 + 16 * u32::from_le_bytes(buf[off + 168..off + 172].try_into().unwrap()) as usize;
+    let (l1, l2) = (rec(176), rec(176 + rec(176)));
+    let mut swapped = buf[..176].to_vec();
+    swapped.extend_from_slice(&buf[176 + l1..176 + l1 + l2]);
+    swapped.extend_from_slice(&buf[176..176 + l1]);
+    swapped.extend_from_slice(&buf[176 + l1 + l2..]);
+    match Ntv2Grid::new(&swapped) {
+        Err(e) => fails.push(format!("the file with swapped sub grid records does not decode: {e:?}")),
+        Ok(g2) => {
+            for i in 0..=60 {
+                for j in 0..=60 {
+                    let lat = lat0 + (lat1 - lat0) * i as f64 / 60.0;
+                    let lon = lon0 + (lon1 - lon0) * j as f64 / 60.0;
+                    let p = Coor4D([lon, lat, 0.0, 0.0]);
+                    n += 1;
+                    if !eq(&g.at(&p, 0.0), &g2.at(&p, 0.0)) {
+                        fails.push(format!("record order matters at ({:.4}, {:.4}): {:?} vs {:?}", lon.to_degrees(), lat.to_degrees(), g.at(&p, 0.0), g2.at(&p, 0.0)));
+                    }
                 }
             }
         }
